@@ -26,6 +26,7 @@ EXPLANATION = (
     "[^\\w\\d\\._%-] (or end of input when last), metacharacters escaped, `^` / `$` emitted exactly under "
     "the anchor flags, per pattern, all patterns handed to the RegexSet; the regex leaf returns only what "
     "RegexManager::matches returns (no shortcut path)."
+    ' Round 6: the host of a `||host...` pattern ends at the first `/`, `*` or `^` (first `/` without wildcards): the `end` of every prefix slice that becomes the hostname comes from exactly these delimiter searches, and the separator class is compared with [/^*] as an automaton.'
 )
 NOT_DECIDED = ("What the library primitives (memmem::find, str::starts_with, the regex crate) answer on concrete "
                "strings; that `www.` is stripped from a rule's hostname (reported as a known finding, see C02.7).")
@@ -86,10 +87,57 @@ def check(run):
     for cfg in run.cfgs("A", "D"):
         F = run.facts(cfg)
         run.guard("C02.7.host-verbatim", cfg, lambda: rule_host_verbatim(run, F, cfg))
+        run.guard("C02.7.host-verbatim", cfg + "/host-part", lambda: rule_host_part(run, F, cfg))
     for cfg in run.cfgs("A", "D"):
         F = run.facts(cfg)
         b63 = run.borrow("C06", why="a pattern is matched with the regex compiled for ITS OWN text: the cache key has to identify the rule (and be dropped when rules are re-allocated or fused)")
         run.guard("C02.via.C06.3.cache-key-validity", cfg, lambda: _C06.rule_cache_key(b63, F, cfg))
+
+
+def rule_host_part(run, F, cfg):
+    """Where the host of a `||host...` pattern ends: at the first `/`, `*` or `^` when the pattern has wildcards or
+    separators, at the first `/` otherwise -- a delimiter search, so that every other character the author wrote
+    (`_`, `:`, `%`, non-ASCII letters, ..) stays part of the host. Decided on the prefix slices `pattern[..end]` that
+    become the hostname: their `end` must come from exactly these two searches; the separator class is compared with
+    `[/^*]` as an automaton."""
+    from analysis.a7 import regex_equivalent
+    p = F.fn("filters::network::NetworkFilter::parse")
+    bodies = [p] + F.closures_of(p.name)
+    ends = []
+    for g in bodies:
+        for b, t in g.calls(r"String as std::convert::From<&str>>::from$"):
+            e = g.expr_call(t)
+            m = re.match(r"^<std::string::String as std::ops::Index<I>>::index\((.*), std::ops::RangeTo::RangeTo\{end: (.*)\}\)$", e)
+            if m and (m.group(1).endswith(".pattern.pattern") or m.group(1) == "up:pattern"):
+                ends.append((g, m.group(2), g.loc(b)))
+    sep_ok = [x for g, x, l in ends if re.match(
+        r"^regex::Match::start\(regex::Regex::find\(static:filters::network::NetworkFilter::parse::SEPARATOR, .*pattern\.pattern\)@Some\.0\)$", x)]
+    # the same search written without a regex: pattern.find(|c| matches!(c, '/' | '^' | '*')) or pattern.find(['/', '^', '*'])
+    from analysis.guards import char_predicate_set
+    for g, x, l in ends:
+        m = re.match(r"^core::str::find\(.*pattern\.pattern, closure\[([^\]]+)\]\(\)\)@Some\.0$", x)
+        if m and m.group(1) in F.fns and char_predicate_set(F.fns[m.group(1)]) == {"/", "^", "*"}:
+            sep_ok.append(x)
+        m = re.match(r"^core::str::find\(.*pattern\.pattern, \[('.', '.', '.')\]\)@Some\.0$", x)
+        if m and set(re.findall(r"'(.)'", m.group(1))) == {"/", "^", "*"}:
+            sep_ok.append(x)
+    clo = [(g, x) for g, x, l in ends if re.match(r"^arg:\w+$", x)]
+    # the closure's argument is the position handed over by memchr(b'/', pattern).map(..)
+    maps = [p.expr_call(t) for b, t in p.calls(r"^std::option::Option::map$")]
+    slash_ok = [g for g, x in clo if any(re.match(r"^std::option::Option::map\(memchr::memchr\(47, .*pattern\.pattern\), closure\[" + re.escape(g.name) + r"\]", m_) for m_ in maps)]
+    other = [(x[:100], l) for g, x, l in ends if x not in sep_ok and not any(g is g2 for g2 in slash_ok)]
+    lit = None
+    for n2, c in F.fns.items():
+        if n2.startswith("filters::network::NetworkFilter::parse::SEPARATOR::{closure"):
+            for b, t in c.calls(r"^regex::Regex::new$"):
+                lit = c.expr_operand(t["args"][0])
+    okx, why = regex_equivalent(lit or '""', '"[/^*]"') if lit is not None or not sep_ok else (True, "no regex: character set {/ ^ *}")
+    run.ob("C02.7.host-verbatim", "host-part-ends-at-first-delimiter", len(sep_ok) == 1 and len(slash_ok) == 1 and not other and okx,
+           f"the hostname of a `||` rule is pattern[..end] with end = start of the first match of SEPARATOR ~ [/^*] "
+           f"(literal {lit}; {why}) in the wildcard branch and end = memchr(b'/') otherwise; other ends: {other[:2]}",
+           site=other[0][1] if other else p.loc(0), config=cfg,
+           detail="an allow-list of host characters instead of the delimiter search cuts `||ad_server.example.com^` "
+                  "at the underscore: the rule then matches nothing on that host")
 
 
 def rule_host_verbatim(run, F, cfg):
